@@ -76,6 +76,12 @@ func checkC10(c *Ctx, r *Report) {
 	ecdsaSigLength(c, r, "C10.R1.ecdsa-sig-length", "RRSIG.Verify", "a signature padded with leading zero octets in r and s (66 instead of 64 octets) verifies although it is not the RFC 6605 encoding: Verify succeeds for octets that are not a signature of the canonical form")
 	c10RRsetInputs(c, r, "C10.R1.rrset-inputs")
 	borrow(c, r, c17KeyTag, "C17.R8.keytag-formula", "C10.R1.keytag-formula", 1, "the key tag Sign writes and Verify compares is the RFC 4034 Appendix B sum, folded once", nil, "for keys whose sum carries twice the tag differs from every other implementation's: their signatures name a key nobody else finds, and signatures others made with the right tag are refused with ErrKey")
+	decodeErrorsUsed(c, r, "C10.R1.decode-errors", "a signature (or key) followed by characters that are not base64 is taken for the signature in front of them: an altered RRSIG still verifies", func(fn *ssa.Function) bool {
+		return strings.HasSuffix(c.Fset.Position(fn.Pos()).Filename, "dnssec.go")
+	})
+	borrow(c, r, c19Derived, "C19.R2.walk", "C10.R3.label-count", 1, "CountLabel (the RRSIG Labels field, the wildcard test) counts the label starts NextLabel finds", func(k string) bool { return k == "CountLabel" }, "Sign writes a Labels value that disagrees with the labels rawSignatureData splits the owner into: a signature that covers other names, or a valid one refused")
+	r.rule("C10.R1.ecdsa-widths", 1, "ECDSA keys are read with RFC 6605's coordinate widths per algorithm")
+	ecdsaWidths(c, r, "C10.R1.ecdsa-widths")
 }
 
 // c17R6as runs the RSA size-limit rule under another rule id (shared by C10, C17, C18).
